@@ -2574,7 +2574,15 @@ class RedunClient:
         if args.error:
             BaseFile(args.error).remove()
 
+        output_path: Optional[str] = None
         try:
+            output_path = args.output
+            if args.array_job and args.output:
+                # Get path to actual output file based on index.
+                with BaseFile(args.output).open() as output_spec_file:
+                    ofiles = json.load(output_spec_file)
+                output_path = ofiles[array_job_index]
+
             # Extract code package if specified.
             if args.code:
                 code_file = BaseFile(args.code)
@@ -2599,14 +2607,6 @@ class RedunClient:
             task = get_task_registry().get(args.task)
             if not task:
                 raise RedunClientError('Unknown task "{}"'.format(args.task))
-
-            output_path = args.output
-            if args.array_job:
-                # Get path to actual output file based on index.
-                if args.output:
-                    with BaseFile(args.output).open() as output_spec_file:
-                        ofiles = json.load(output_spec_file)
-                    output_path = ofiles[array_job_index]
 
             # Determine arguments for task.
             if args.input:
@@ -2675,6 +2675,11 @@ class RedunClient:
                     error_traceback2 = Traceback.from_error(error2)
                     with BaseFile(args.error).open("wb") as out:
                         pickle_dump((error2, error_traceback2), out)
+            if output_path:
+                # Executors take an existing output file to mean success, so a failed run must
+                # not leave one behind, e.g. from an earlier run with the same eval hash when
+                # the failure (import, task lookup, input parsing) precedes the removal above.
+                BaseFile(output_path).remove()
             raise error
 
     def db_info_command(self, args: Namespace, extra_args: list[str], argv: list[str]) -> None:
